@@ -136,6 +136,8 @@ def attribute(ck, pid, traces, fails, extra_props=()):
                 continue  # likelihood evaluated in other processes: provenance / evaluation counts unobservable
             prop = psrun.CLAUSE_PROPERTY.get(cl)
             props = {prop} if prop else set()
+            if cl == "MB_SameSlots":
+                props.add("C14")  # the kernel must receive the labels the resampler assigned (as well as the same records)
             if tr["meta"].get("resumed") and cl in RESUME_CLAUSES:
                 props.add("C08")  # a resumed run continues numbering / counting / schedule and ends with the same postconditions
             if not props:
